@@ -197,7 +197,9 @@ func entryPoints(expr *Expr, consumer func(ref *Expr)) bool {
 	case Choice:
 		ret := len(expr.Sub) > 0
 		for _, c := range expr.Sub {
-			ret = ret && entryPoints(c, consumer)
+			// Note: all alternatives must be scanned for references, even after a nullable one.
+			compat := entryPoints(c, consumer)
+			ret = ret && compat
 		}
 		return ret
 	case Sequence:
